@@ -105,6 +105,11 @@ variable {F : Type} [Add F] [Sub F] [Mul F] [Div F] [LT F] [DecidableLT F] [Roun
 `_lower_bound = around(grid[0], decimals)` -/
 def mkGrid (g0 delta : F) (dec fd : Nat) : PGrid F := ⟨aroundDec dec g0, aroundDec dec delta, dec, fd⟩
 
+/-- `ParameterGrid.__init__` with its argument checks: `none` = `ValueError` for more than
+`maxDec` decimals (the literal 16 of the source) or a negative number of decimals. -/
+def mkGridChecked (g0 delta : F) (dec : Int) (fd maxDec : Nat) : Option (PGrid F) :=
+  if dec < 0 ∨ (maxDec : Int) < dec then none else some (mkGrid g0 delta dec.toNat fd)
+
 /-- `_calc_floatD_and_intD`: `floatD = around((value - lb)/delta, 9)` (`fd = 9`) -/
 def floatD (G : PGrid F) (v : F) : F := aroundDec G.fd ((v - G.lb) / G.delta)
 
@@ -245,9 +250,13 @@ def linCompute (G : PGrid F) (Mf : Int → List F → List F) (ns : List Nat) (s
   let M1 := Mf sid x1
   match broadcast x0 ns, broadcast x1 ns with
   | some v0, some v1 =>
-    let m := List.zipWith (· / ·) (List.zipWith (· - ·) M1 M0) (List.zipWith (· - ·) v1 v0)
-    let b := List.zipWith (· - ·) M0 (List.zipWith (· * ·) m v0)
-    some ⟨sid, x0, m, b⟩
+    -- the manifold function has to return one value per entry of the values array (numpy raises
+    -- on arrays of different lengths; `zipWith` would silently truncate)
+    if M0.length = ns.sum ∧ M1.length = ns.sum then
+      let m := List.zipWith (· / ·) (List.zipWith (· - ·) M1 M0) (List.zipWith (· - ·) v1 v0)
+      let b := List.zipWith (· - ·) M0 (List.zipWith (· * ·) m v0)
+      some ⟨sid, x0, m, b⟩
+    else none
   | _, _ => none
 
 /-- `values = m*x + b`, `grads = m` -/
@@ -291,8 +300,10 @@ structure ParCache (F : Type) where
   a : List F
   b : List F
 
-/-- parabola parameters around the nearest grid points `x1` -/
-def parCompute (G : PGrid F) (Mf : Int → List F → List F) (sid : Int) (xs : List F) : ParCache F :=
+/-- parabola parameters around the nearest grid points `x1` (`none` = the manifold function did not
+return one value per entry of the values array: numpy raises, nothing is stored) -/
+def parCompute (G : PGrid F) (Mf : Int → List F → List F) (ns : List Nat) (sid : Int) (xs : List F) :
+    Option (ParCache F) :=
   let dx := G.delta
   let x1 := xs.map (roundNearest G)
   let x0 := x1.map fun t => roundNearest G (t - dx)
@@ -300,47 +311,57 @@ def parCompute (G : PGrid F) (Mf : Int → List F → List F) (sid : Int) (xs : 
   let M0 := Mf sid x0
   let M1 := Mf sid x1
   let M2 := Mf sid x2
-  let a := List.zipWith (fun s _ => s / (dx * dx))
-    (List.zipWith (fun s m2 => (1 / 2) * (s + m2)) (List.zipWith (fun m0 m1 => m0 - 2 * m1) M0 M1) M2) M1
-  let b := List.zipWith (fun m2 m0 => (1 / 2) * (m2 - m0) / dx) M2 M0
-  ⟨sid, x1, M1, a, b⟩
+  if M0.length = ns.sum ∧ M1.length = ns.sum ∧ M2.length = ns.sum then
+    let a := (M0.zip (M1.zip M2)).map fun p => parA dx p.1 p.2.1 p.2.2
+    let b := (M0.zip M2).map fun p => parB dx p.1 p.2
+    some ⟨sid, x1, M1, a, b⟩
+  else none
 
-/-- `x - x1` uses the nearest grid points of the *current* parameter values (recomputed at the top of
-`__call__`), the cache supplies `M1`, `a`, `b` only -/
-def parEval (G : PGrid F) (c : ParCache F) (ns : List Nat) (xs : List F) : Option (List F × List F) :=
-  match broadcast (List.zipWith (· - ·) xs (xs.map (roundNearest G))) ns with
-  | some t =>
-    let at2 := List.zipWith (· * ·) c.a (List.zipWith (· * ·) t t)
-    let bt := List.zipWith (· * ·) c.b t
-    some (List.zipWith (· + ·) (List.zipWith (· + ·) at2 bt) c.M1,
-          List.zipWith (· + ·) (List.zipWith (fun a t => 2 * a * t) c.a t) c.b)
-  | none => none
+/-- `values = a*t**2 + b*t + M1`, `grads = 2.*a*t + b` for the broadcast `t = x - x1` -/
+def parEval (c : ParCache F) (t : List F) : List F × List F :=
+  (List.zipWith (· + ·) (List.zipWith (· + ·) (List.zipWith (· * ·) c.a (List.zipWith (· * ·) t t))
+      (List.zipWith (· * ·) c.b t)) c.M1,
+   List.zipWith (· + ·) (List.zipWith (fun a t => 2 * a * t) c.a t) c.b)
 
-/-- `np.any(np.not_equal(cache_x1, x1))` negated, for equal lengths or a length-1 operand
-(numpy broadcasting); other length combinations do not occur (ValueError in numpy). -/
-def bcastEq (a b : List F) : Bool :=
-  if a.length = b.length then a == b
+/-- `np.any(np.not_equal(cache_x1, x1))` negated: equal lengths or a length-1 operand (numpy
+broadcasting); `none` = ValueError for other length combinations. -/
+def bcastEq (a b : List F) : Option Bool :=
+  if a.length = b.length then some (a == b)
   else match a, b with
-    | [x], _ => b.all (· == x)
-    | _, [y] => a.all (· == y)
-    | _, _ => false
+    | [x], _ => some (b.all (· == x))
+    | _, [y] => some (a.all (· == y))
+    | _, _ => none
 
-/-- one `__call__` of the parabola method; the cache is stored before the broadcast, so it is
-updated even when the call raises. -/
+/-- one `__call__` of the parabola method (the *fixed* code): `x - x1` is broadcast first — this
+validates the number of parameter values — and only then the cache is consulted or replaced, so a
+raising call leaves the cache as it was. -/
 def parCall (G : PGrid F) (Mf : Int → List F → List F) (ns : List Nat)
     (cache : Option (ParCache F)) (sid : Int) (xs : List F) :
     Option (ParCache F) × Option (List F × List F) :=
   let x1 := xs.map (roundNearest G)
-  let fresh : Option (ParCache F) × Option (List F × List F) :=
-    let c' := parCompute G Mf sid xs
-    (some c', parEval G c' ns xs)
-  match cache with
-  | some c => if c.sid = sid ∧ bcastEq c.x1 x1 = true then (cache, parEval G c ns xs) else fresh
-  | none => fresh
+  match broadcast (List.zipWith (· - ·) xs x1) ns with
+  | none => (cache, none)
+  | some t =>
+    let fresh : Option (ParCache F) × Option (List F × List F) :=
+      match parCompute G Mf ns sid xs with
+      | some c' => (some c', some (parEval c' t))
+      | none => (cache, none)
+    match cache with
+    | none => fresh
+    | some c =>
+      if c.sid = sid then
+        match bcastEq c.x1 x1 with
+        | none => (cache, none)
+        | some true => (cache, some (parEval c t))
+        | some false => fresh
+      else fresh
 
+/-- specification: what a fresh object returns -/
 def parSpec (G : PGrid F) (Mf : Int → List F → List F) (ns : List Nat) (sid : Int) (xs : List F) :
     Option (List F × List F) :=
-  parEval G (parCompute G Mf sid xs) ns xs
+  match broadcast (List.zipWith (· - ·) xs (xs.map (roundNearest G))) ns with
+  | none => none
+  | some t => (parCompute G Mf ns sid xs).map fun c => parEval c t
 
 def parRun (G : PGrid F) (Mf : Int → List F → List F) (ns : List Nat) :
     Option (ParCache F) → List (Int × List F) → List (Option (List F × List F))
